@@ -48,7 +48,7 @@ var props = []*prop{
 		Variants: []variant{{Scenario: "c01", Weight: 2}, {Scenario: "c01f", Weight: 1}},
 		Real:     append([]string{"tars2go built from the working tree; proxy, dispatcher and struct codecs it generates from /verif/idl/VerifAll.tars (real, atomic to the scheduler)", "tars filters (legacy, pre/post, middleware), tars.Protocol.Invoke, current (real)"}, fullStackReal...),
 		Stub:     append([]string{netStub + " (fault-free: fragmentation and delay only)", "servant implementation -> recording implementation driven by a per-call plan"}, commonStub...),
-		Rule:     "one case = one simulated run: 1-8 callers x 1-6 calls sharing one generated proxy against a real server (pool 0/2/5) hosting the generated dispatcher; every call draws a method (void, scalars, string, byte vector, nested vectors, maps, struct with every member kind, enum, fixed array; two-way and one-way), boundary-dense argument/return/out values (min/max, NaN payloads, signed zero, empty and nil containers, strings and byte vectors across the 255/256, 4096 and 65536 boundaries), context/status maps (absent, empty, populated), and a servant outcome (values, response context/status, *tars.Error or plain error); client and server filter families (none, legacy single, pre+post, middleware chain) drawn independently; every third run instead drives, through reflection, one module of a seeded family of IDL programs (8 per build, 24 in the thorough tier; VERIF_SEED selects the family: random structs with required/optional/defaulted members of scalar, string, vector, map, struct and enum types at sparse tags, interfaces with 2-5 methods, in/out parameters, void and typed returns) generated, compiled and linked at check time; distinct = distinct (event-log hash, switch trace hash); non-trivial = at least one preemption",
+		Rule:     "one case = one simulated run: 1-8 callers x 1-6 calls sharing one generated proxy against a real server (pool 0/2/5) hosting the generated dispatcher; every call draws a method (void, scalars, string, byte vector, nested vectors, maps, struct with every member kind, enum, fixed array; two-way and one-way), boundary-dense argument/return/out values (min/max, NaN payloads, signed zero, empty and nil containers, strings and byte vectors across the 255/256, 4096 and 65536 boundaries), context/status maps (absent, empty, populated), and a servant outcome (values, response context/status, *tars.Error or plain error); client and server filter families (none, legacy single, pre+post, middleware chain) drawn independently, in half of the middleware runs one more client middleware is registered after a drawn number of calls; every third run instead drives, through reflection, one module of a seeded family of IDL programs (8 per build, 24 in the thorough tier; VERIF_SEED selects the family: random structs with required/optional/defaulted members of scalar, string, vector, map, struct and enum types at sparse tags, interfaces with 2-5 methods, in/out parameters, void and typed returns) generated, compiled and linked at check time; distinct = distinct (event-log hash, switch trace hash); non-trivial = at least one preemption",
 	},
 	{
 		ID: "C07", Binary: "simcore", Quick: 3000, Thorough: 60000, RunWall: 180 * time.Second,
@@ -62,56 +62,56 @@ var props = []*prop{
 		Variants: []variant{{Scenario: "c08", Weight: 1}},
 		Real:     fullStackReal,
 		Stub:     append([]string{netStub, "server -> scripted peer speaking the wire protocol through an independent reference codec (verifsim/refcodec)"}, commonStub...),
-		Rule:     "one case = one simulated run: 1-8 concurrent callers x 1-5 calls with unique payloads through one real ServantProxy; the scripted server answers each request by a tape-drawn plan (immediate, delayed, duplicated, stray unused id first, id-0 push frame first, around the deadline, late, replay after completion), reads fragmented and deliveries delayed per tape, id counter preset near MaxInt32/-1 in some runs; distinct = distinct (event-log hash, switch trace hash); non-trivial = at least one preemption, stall or fired fault",
+		Rule:     "one case = one simulated run: 1-8 concurrent callers x 1-5 calls with unique payloads through 1-3 proxy objects for one servant (direct endpoint, or in a quarter of the runs a registry that delists an endpoint under waiting callers), optionally with a slow push callback; the scripted server answers each request by a tape-drawn plan (immediate, delayed, duplicated, stray unused id first, id-0 push frame first, close notification first, around the deadline, late, replay after completion), reads fragmented and deliveries delayed per tape, id counter preset near MaxInt32/-1 in some runs; distinct = distinct (event-log hash, switch trace hash); non-trivial = at least one preemption, stall or fired fault",
 	},
 	{
 		ID: "C09", Binary: "simcore", Quick: 6000, Thorough: 120000, RunWall: 120 * time.Second,
 		Variants: []variant{{Scenario: "c09", Params: map[string]string{"faults": "on"}, Weight: 3}, {Scenario: "c09", Params: map[string]string{"faults": "off", "stalls": "off"}, Weight: 1}},
 		Real:     fullStackReal,
 		Stub:     append([]string{netStub, "server -> scripted peer (reference codec) with tape-drawn misbehaviour"}, commonStub...),
-		Rule:     "one case = one simulated run: 1-6 concurrent callers x 1-4 calls through one real ServantProxy with tape-drawn proxy/per-call/context deadlines, dial/write/read time-outs and send-queue length; the peer's behaviour is drawn per connection (close on accept, never read, silent, garbage) and per request (immediate, never, around the deadline, late, close after request, half a response then close, reset, garbage, other id first), plus address faults (refused, black-holed, refuse-then-heal, crash and restart); a fault-free variant (every call must succeed) runs separately; distinct = distinct (event-log hash, switch trace hash); non-trivial = at least one preemption, stall or fired fault",
+		Rule:     "one case = one simulated run: 1-6 concurrent callers x 1-4 calls through 1-3 proxy objects for one servant (a quarter of the runs with a push callback) with tape-drawn proxy/per-call/context deadlines, dial/write/read time-outs and send-queue length; the peer's behaviour is drawn per connection (close on accept, never read, silent, garbage) and per request (immediate, never, around the deadline, late, close after request, half a response then close, reset, garbage, other id first), plus address faults (refused, black-holed, refuse-then-heal, crash and restart); a fault-free variant (every call must succeed) runs separately; distinct = distinct (event-log hash, switch trace hash); non-trivial = at least one preemption, stall or fired fault",
 	},
 	{
 		ID: "C10", Binary: "simgen", NeedsGen: true, Quick: 4000, Thorough: 100000, RunWall: 180 * time.Second,
 		Variants: []variant{{Scenario: "c10", Params: map[string]string{"proto": "tcp"}, Weight: 3}, {Scenario: "c10", Params: map[string]string{"proto": "udp"}, Weight: 1}},
 		Real:     []string{"tars.Protocol.Invoke / InvokeTimeout / rsp2Byte (instrumented)", "tars/transport: TarsServer.invoke (handle time-out), tcpHandler, udpHandler (instrumented)", "tars/util/gpool", "tars2go built from the working tree and the dispatcher it generates from /verif/idl/VerifAll.tars (real, atomic to the scheduler)", "tars/protocol codec, tup (real)"},
 		Stub:     append([]string{netStub, "clients -> scripted raw clients building TARS-, TUP- and JSON-versioned requests with the independent reference codec"}, commonStub...),
-		Rule:     "one case = one simulated run: real TarsServer (TCP or UDP) with the generated dispatcher, pool 0/1/2/4, queue capacity 2/8/1000, handle time-out 0/100ms/700ms; 1-4 raw clients pipelining 1-10 requests each: TARS/TUP/JSON version, two-way/one-way, addInts/echoString/fail(code,msg)/slow(ms)/tars_ping/unknown function, arbitrary (also negative) ids, time-outs 0/5-45ms/3s/60s, optionally behind a pool saturated for 600ms; UDP with datagram loss and duplication; distinct = distinct (event-log hash, switch trace hash); non-trivial = at least one preemption or fired fault",
+		Rule:     "one case = one simulated run: real TarsServer (TCP or UDP) with the generated dispatcher, pool 0/1/2/4, queue capacity 2/8/1000, handle time-out 0/100ms/700ms, server read time-out 0/100ms/1s, idle time-out 0.4s/2s/600s; 1-4 raw clients (a third half-close after their last request) pipelining 1-10 requests each: TARS/TUP/JSON version, two-way/one-way, addInts/echoString/fail(code,msg)/slow(ms)/tars_ping/unknown function, arbitrary (also negative) ids, time-outs 0/5-45ms/3s/60s, optionally behind a pool saturated for 600ms; UDP with datagram loss and duplication; distinct = distinct (event-log hash, switch trace hash); non-trivial = at least one preemption or fired fault",
 	},
 	{
 		ID: "C11", Binary: "simcore", Quick: 20000, Thorough: 200000, RunWall: 180 * time.Second,
 		Variants: []variant{{Scenario: "c11", Weight: 3}, {Scenario: "c11r", Weight: 1}},
 		Real:     fullStackReal,
 		Stub:     append([]string{netStub, "server -> scripted peer (reference codec) that answers every request it reads and closes connections by plan"}, commonStub...),
-		Rule:     "one case = one simulated run: 1-2 callers x 2-8 sequential calls through one real proxy with tape-drawn gaps (0ms-2.5s, straddling the sender's 1s poll); per accepted connection the scripted server keeps it, closes it after response k, closes it when idle for 50ms-2s, or sends the reconnect notification and closes after a drawn gap; crash+restart (with a drawn down time) in some runs; every fourth run uses a real TarsServer as the peer instead (idle time-out 0.7-600s closing idle connections, graceful Shutdown with reconnect notification and restart 0-2 times); distinct = distinct (event-log hash, switch trace hash); non-trivial = at least one preemption or fired fault",
+		Rule:     "one case = one simulated run: 1-2 callers x 2-8 sequential calls through one real proxy with tape-drawn gaps (0ms-2.5s, straddling the sender's 1s poll); per accepted connection the scripted server keeps it, closes it after response k, closes it when idle for 50ms-2s, or sends the reconnect notification and closes after a drawn gap; one answer in six takes 1.2-2.5s; client idle time-out default/1s/2s; crash+restart (with a drawn down time) in some runs; every fourth run uses a real TarsServer as the peer instead (idle time-out 0.7-600s closing idle connections, graceful Shutdown with reconnect notification and restart 0-2 times); distinct = distinct (event-log hash, switch trace hash); non-trivial = at least one preemption or fired fault",
 	},
 	{
 		ID: "C12", Binary: "simcore", Quick: 5000, Thorough: 100000, RunWall: 180 * time.Second,
 		Variants: []variant{{Scenario: "c12", Params: map[string]string{"pool": "0"}, Weight: 1}, {Scenario: "c12", Params: map[string]string{"pool": "n"}, Weight: 1}},
 		Real:     []string{"tars/transport: TarsServer.Shutdown, tcpHandler accept loop / receive loops / CloseIdles (instrumented)", "tars.Protocol.Invoke and GetCloseMsg (instrumented)", "tars/util/gpool worker pool (instrumented)"},
 		Stub:     append([]string{netStub, "clients -> scripted raw clients (reference codec) that pipeline requests and read until the server closes", "servant -> sleeping echo dispatcher"}, commonStub...),
-		Rule:     "one case = one simulated run: real TarsServer with pool 0/1/2/4 and queue capacity 1/3/1000, 1-4 raw clients pipelining 0-7 requests (handler durations 0-2500ms, some one-way, some sent late into the drain window), Shutdown at a drawn instant with a drawn context (0.7-60s); checked separately for pool 0 and pool N; distinct = distinct (event-log hash, switch trace hash); non-trivial = at least one preemption or fired fault",
+		Rule:     "one case = one simulated run: real TarsServer with pool 0/1/2/4 and queue capacity 1/3/1000, 1-4 raw clients pipelining 0-7 requests (handler durations 0-2500ms, some one-way, some sent late into the drain window; one client may reset its connection), handle time-out 0/300ms/1s, server read/idle time-outs drawn, Shutdown at a drawn instant with a drawn context (0.7-60s), in a quarter of the runs followed by a second Shutdown call; checked separately for pool 0 and pool N; distinct = distinct (event-log hash, switch trace hash); non-trivial = at least one preemption or fired fault",
 	},
 	{
 		ID: "C13", Binary: "simcore", Quick: 8000, Thorough: 200000, RunWall: 60 * time.Second,
 		Variants: []variant{{Scenario: "c13", Weight: 24}, {Scenario: "c13m", Weight: 1}},
 		Real:     []string{"tars/selector (BuildStaticWeightList), roundrobin, random, modhash, consistenthash (instrumented from the working tree)"},
 		Stub:     commonStub,
-		Rule:     "one case = one simulated run: one strategy (round-robin, random, mod-hash, consistent-hash; weighted or not) over a universe of 2-6 hosts with tape-drawn weights (positive, zero, negative) and weight types; 1-3 selecting goroutines and 1-2 updating goroutines (Refresh/Add/Remove) interleaved at statement granularity, the invoke/return history checked with porcupine against the member-set model; then a sequential phase checking strict rotation / weighted cycle composition of round-robin on a set reached through a drawn history; every 25th run is the manager-level variant: 100-300 simulated seconds of calls through a real endpointManager while the scripted registry's list changes (endpoints leave and join, refresh every 0.7-2s) and, in a third of those runs, servers also fail: calls only go to recently listed endpoints, and N consecutive calls over an unchanged N-endpoint rotation hit each endpoint once; distinct = distinct (event-log hash, switch trace hash); non-trivial = at least one preemption",
+		Rule:     "one case = one simulated run: one strategy (round-robin, random, mod-hash, consistent-hash; weighted or not) over a universe of 2-6 hosts with tape-drawn weights (positive, zero, negative) and weight types; 1-3 selecting goroutines and 1-2 updating goroutines (Refresh with a slice the caller recycles afterwards, Add, Remove - a third of them with a newer descriptor of the same host) interleaved at statement granularity, the invoke/return history checked with porcupine against the member-set model; then a sequential phase checking strict rotation / weighted cycle composition of round-robin on a set reached through a drawn history; every 25th run is the manager-level variant: 100-300 simulated seconds of calls through a real endpointManager while the scripted registry's list changes (endpoints leave and join, refresh every 0.7-2s) and, in a third of those runs, servers also fail: calls only go to recently listed endpoints, and N consecutive calls over an unchanged N-endpoint rotation hit each endpoint once; distinct = distinct (event-log hash, switch trace hash); non-trivial = at least one preemption",
 	},
 	{
 		ID: "C14", Binary: "simcore", Quick: 4000, Thorough: 100000, RunWall: 60 * time.Second,
 		Variants: []variant{{Scenario: "c14", Weight: 12}, {Scenario: "c14c", Weight: 1}},
 		Real:     []string{"tars/selector/consistenthash, modhash (instrumented from the working tree)", "cluster variant (1 run in 13): the full client stack with endpointManager failover, as in C15"},
 		Stub:     append([]string{"reference: independently built Ketama ring / mod-hash slot model in the harness"}, commonStub...),
-		Rule:     "one case = one simulated run: two selector instances, one driven by a tape-drawn history of 1-25 add/remove/refresh events, the other reaching the same set by another route; ~190 lookups (ring points and their +-1 neighbours, 0, MaxUint32, random codes) compared between the instances and with an independently built ring; then removal and addition of one endpoint (minimal disruption); every 13th run is the cluster variant: 100-300 simulated seconds of calls carrying mod-hash / consistent-hash codes through a registry-discovered proxy while 2-5 scripted servers fail and recover, each call compared with the reference applied to the rotation at selection time; distinct = distinct (event-log hash, switch trace hash); non-trivial = at least one preemption or fault phase (the single-goroutine selector-level runs count as trivial)",
+		Rule:     "one case = one simulated run: two selector instances, one driven by a tape-drawn history of 1-25 add/remove/refresh events, the other reaching the same set by another route; ~190 lookups (ring points and their +-1 neighbours, 0, MaxUint32, random codes) compared between the instances and with an independently built ring; then removal and addition of one endpoint (minimal disruption); every 13th run is the cluster variant: 100-300 simulated seconds of calls carrying mod-hash / consistent-hash codes through a registry-discovered proxy while 2-5 scripted servers fail and recover and the registry flips weight type and weights, each call compared with the (weighted) reference applied to the rotation and registry answers in effect at selection time; distinct = distinct (event-log hash, switch trace hash); non-trivial = at least one preemption or fault phase (the single-goroutine selector-level runs count as trivial)",
 	},
 	{
 		ID: "C15", Binary: "simcore", Quick: 1500, Thorough: 20000, RunWall: 300 * time.Second,
 		Variants: []variant{{Scenario: "c15", Weight: 1}},
 		Real:     append([]string{"tars endpointManager, globalManager status check / refresh loops, AdapterProxy health accounting (instrumented)"}, fullStackReal...),
 		Stub:     append([]string{netStub, "registry -> scripted registry.Registrar through the existing tars.Registrar option", "servers -> 2-5 scripted peers with per-server timelines of healthy / silent / refusing phases"}, commonStub...),
-		Rule:     "one case = one simulated run of 100-300 simulated seconds: a registry-discovered servant with 2-5 scripted servers, each with 0-3 fault phases (silent or refusing for 2-100s, aligned around the 5-failure, 5s, 30s and 60s thresholds), a client calling every 50-1900ms with a 200-600ms time-out, status check every 0.5-2s; the rotation is sampled 4x per simulated second through an overlay accessor; distinct = distinct (event-log hash, switch trace hash); non-trivial = at least one preemption or fault phase",
+		Rule:     "one case = one simulated run of 100-300 simulated seconds: a registry-discovered servant with 2-5 scripted servers, each with 0-3 fault phases (silent, refusing, flaky or answering after the caller's time-out, for 2-100s, aligned around the 5-failure, 5s, 30s and 60s thresholds), a client calling every 50-1900ms with a 200-600ms time-out, status check every 0.5-2s; in some runs the registry's answer changes on the status-check grid, calls are bounded by the caller's cancellation, a third of the calls is hash-routed, or keep-alive pings are on; the rotation is sampled 4x per simulated second through an overlay accessor; distinct = distinct (event-log hash, switch trace hash); non-trivial = at least one preemption or fault phase",
 	},
 	{
 		ID: "C19", Binary: "simcore", Quick: 6000, Thorough: 120000, RunWall: 60 * time.Second,
@@ -125,7 +125,7 @@ var props = []*prop{
 		Variants: []variant{{Scenario: "c20", Weight: 1}},
 		Real:     []string{"tars/util/rogger (instrumented; queue and flusher recreated inside the bubble by an overlay shim)", "tars.CheckPanic (panic-exit variant)"},
 		Stub:     append([]string{"LogWriter -> recording writer", "os.Exit -> simrt.Exit (records and ends the run)"}, commonStub...),
-		Rule:     "one case = one simulated run: 1-4 logging goroutines x 1-6 entries through WriteLog/Debugf/Info, 1-2 writers, queue capacity 1-10000, flush (or panic-triggered exit) after a drawn number of returned log calls, under a tape-drawn schedule incl. the case order of every select; distinct = distinct (event-log hash, switch trace hash); non-trivial = at least one preemption or fired fault",
+		Rule:     "one case = one simulated run: 1-4 logging goroutines x 1-6 entries through WriteLog/Debugf/Info/Trace, 1-2 writers (a logger may be given another writer after a drawn number of calls), queue capacity 1-10000, flush (or panic-triggered exit, with one or two panicking goroutines) after a drawn number of returned log calls, under a tape-drawn schedule incl. the case order of every select; distinct = distinct (event-log hash, switch trace hash); non-trivial = at least one preemption or fired fault",
 	},
 }
 
